@@ -148,9 +148,23 @@ fn run_seq(limit: usize, ops: &[Op], req: &mut impl Write, imp: &mut impl Write,
         let mut viol = vec![];
         let before_null_used = None::<usize>;
         let _ = before_null_used;
-        let ans = s.exec(op, &mut viol);
+        let res = std::panic::catch_unwind(std::panic::AssertUnwindSafe(|| { let mut v2 = vec![]; let a = s.exec(op, &mut v2); (a, v2) }));
+        let (ans, more) = match res { Ok(x) => x, Err(_) => ("panic".to_string(), vec!["the allocator panicked (arithmetic overflow in its accounting)".to_string()]) };
+        let panicked = ans == "panic";
+        viol.extend(more);
         writeln!(req, "{}", op.line()).unwrap();
         writeln!(imp, "{}", ans).unwrap();
+        if panicked {
+            for v in viol {
+                *nviol += 1;
+                if *nviol <= 50 {
+                    let hist: Vec<String> = std::iter::once(format!("init {}", limit)).chain(ops[..=k].iter().map(|o| o.line())).collect();
+                    writeln!(orc, "{}", serde_json::json!({"property":"C19","what":v,"history":hist})).unwrap();
+                }
+            }
+            std::mem::forget(s);
+            return;
+        }
         for v in viol {
             *nviol += 1;
             if *nviol <= 50 {
@@ -161,7 +175,10 @@ fn run_seq(limit: usize, ops: &[Op], req: &mut impl Write, imp: &mut impl Write,
     }
     // final reset: observes `used` at the end of every enumerated sequence
     let mut viol = vec![];
-    let ans = s.exec(Op::Reset, &mut viol);
+    let ans = match std::panic::catch_unwind(std::panic::AssertUnwindSafe(|| { let mut v2 = vec![]; let a = s.exec(Op::Reset, &mut v2); (a, v2) })) {
+        Ok((a, v2)) => { viol.extend(v2); a }
+        Err(_) => { viol.push("the allocator panicked".to_string()); "panic".to_string() }
+    };
     writeln!(req, "reset").unwrap();
     writeln!(imp, "{}", ans).unwrap();
     for v in viol {
@@ -283,6 +300,7 @@ fn concurrent(limit: usize, nthreads: usize, rounds: usize, ops_per_round: usize
 }
 
 pub fn run(o: &Opts) -> i32 {
+    std::panic::set_hook(Box::new(|_| {}));
     let mut req = o.writer("req.txt");
     let mut imp = o.writer("impl.txt");
     let mut orc = o.writer("oracle.jsonl");
